@@ -236,6 +236,7 @@ def run(tier):
     ck.rule("E1.symbolic-graph", "SymbolicAssembler::assemble_graph_*: the pattern is the composition transpose(test dof graph) o (trial dof graph) (extended variants: with the facet/node adjacency in between), both rendered from the respective spaces, so that every (test dof, trial dof) pair sharing a cell receives an entry", 7)
 
     ck.rule("E7.permutation-applied", "SymbolicAssembler functions that fetch a mesh permutation of one of their spaces (get_perm() / get_inv_perm() of the space's mesh): decision table over the emptiness tests of these permutations - for every combination (empty / not empty) every path to a return yields a graph that depends on every fetched permutation that is not empty in that combination (dependence over-approximated through calls, so only the ABSENCE is a verdict), and no permutation that is empty in that combination is handed to a call as an operand (an empty Permutation has no position array); otherwise, for exactly that combination of permuted / unpermuted meshes, the sparsity pattern is composed in the wrong cell numbering and misses couplings that the numeric assembly fills", 4)
+    ck.rule("E7.setter-history-free", "parameter setters (set_*) of the three Burgers assembly routes (classic BurgersAssembler, BurgersAssemblyJobBase, VoxelBurgersAssembler incl. its generic back-end): the value stored into a member depends only on the arguments of THIS call, i.e. every read of a member the setter stores into is preceded, on every path through the call, by an assignment to that member in the same call (directly or through a sibling setter that assigns it on all its paths); a compound assignment or `m = max(m, new)` makes the state depend on the call history, so that the routes - which are documented to produce the same result for the same input - disagree from the second call on (the classic assembler overwrites)", 8)
     ck.rule("E7.voxel-point-dependence", "voxel assembly kernels (poisson / defo / burgers matrix and defect, host-generic path): in one step of the cubature loop every datum entering the accumulation is computed at the CURRENT cubature point: the determinant factor is det of the Jacobian from calc_jac_mat(cub_pt[k]), the transformed gradients come from eval_ref_gradients(cub_pt[k]) and trans_gradients with the inverse of that same Jacobian, values from eval_ref_values(cub_pt[k]); a Jacobian evaluated outside the loop (e.g. at the cell centre) is exact on parallelogram cells only, the Standard trafo is multilinear", 6)
     ck.rule("E7.voxel-weight-once", "voxel assembly kernels: every term accumulated into the local matrix/vector in the cubature loop carries exactly one factor det(J(cub_pt[k])) and exactly one factor cub_wg[k] of the same loop index k", 6)
 
@@ -245,7 +246,7 @@ def run(tier):
     ck.rule("E2.element-index-kind", "DomainAssembler: a function that reorders the element list (reads the old _element_indices and stores into it: _build_layers, _build_colors) stores only values taken from the old list (possibly through a copy / an in-place translated work array), never a position inside the list: positions equal mesh element numbers only when the assembler was compiled for all elements in mesh order, otherwise the wrong cells are assembled", 4)
     ck.rule("E7.caller-kernel-gating", "voxel host loops: a cell-local array that the host fills (gathers) only under a guard G_w and hands to the shared kernel is read by the kernel only under guards that imply G_w once the kernel's flag parameters are replaced by the call's arguments; otherwise, for a parameter set with the read guard true and G_w false, the kernel computes with the zero-initialised array", 4)
 
-    ck.rule("E7.facet-slot-consistency", "TraceAssembler routes: the per-facet records (_facets, _cells, _cell_facet, _facet_ori are parallel arrays, one record per slot) are used slot-wise: whenever a cell trafo / space evaluator that was prepared from the record of slot s is evaluated, its input (the cubature point mapped through FaceRefTrafo(_cell_facet) and CongruencyTrafo(_facet_ori), resp. the trafo data) depends on the same slot s of every array on every path (?: conditions enumerated), and basis data of one side is indexed with local dof numbers of the same side (CommonDofMap followed field-wise); the point of every cell-trafo evaluation depends on all arrays its sibling routes use. Dependence tags are over-approximated, a verdict is drawn only from the ABSENCE of the required slot; compile() / compile_all_facets() append to all these arrays together (one record per slot)", 99)
+    ck.rule("E7.facet-slot-consistency", "TraceAssembler routes: the per-facet records (_facets, _cells, _cell_facet, _facet_ori are parallel arrays, one record per slot) are used slot-wise: whenever a cell trafo / space evaluator that was prepared from the record of slot s is evaluated, its input (the cubature point mapped through FaceRefTrafo(_cell_facet) and CongruencyTrafo(_facet_ori), resp. the trafo data) depends on the same slot s of every array on every path (?: conditions enumerated), and basis data of one side is indexed with local dof numbers of the same side (CommonDofMap followed field-wise); the point of every cell-trafo evaluation depends on all arrays its sibling routes use, and a decision on slot data that guards a modification of a field of the evaluation data (`if(cell_facet_ori < 0) tau.normal.negate()`: the orientation of the facet normal) is taken from all arrays from which the sibling routes take the same decision (local facet number AND orientation code of the slot). Dependence tags are over-approximated, a verdict is drawn only from the ABSENCE of the required slot; compile() / compile_all_facets() append to all these arrays together (one record per slot)", 108)
     ck.rule("E7.clear-resets-selection", "assembler classes with add_*() / compile() / clear() (TraceAssembler): every member through which a public mutator other than compile()/clear() records the selection (written by add_facet / add_mesh_part) and which compile() reads is reset by clear() (container cleared / assigned, or every element assigned in a loop over that container); a loop over a container that was emptied just before never executes. Otherwise clear() + add_*() + compile() assembles on the union of the old and the new selection, i.e. the integral over the wrong set of facets", 1)
     facts = featlib.extract("tu/c16_assembly.cpp", files=FILES)
     ck.tu(facts)
@@ -278,6 +279,7 @@ def run(tier):
     if len(named) == 3:
         check_caller_kernel_gating(ck, named[2][1], "voxel", tier)
     check_element_index_kind(ck, tier)
+    check_setters(ck, tier)
     check_outputs_cleared(ck, facts_b, tier)
     check_outputs_cleared(ck, facts, tier)
     try:
@@ -2499,6 +2501,198 @@ def check_element_index_kind(ck, tier):
 
 
 # -------------------------------------------------------------------------------------------------
+# parameter setters are history free
+# -------------------------------------------------------------------------------------------------
+
+SETTER_FILES = "|".join([F("kernel/assembly/burgers_assembler.hpp"), F("kernel/assembly/burgers_assembly_job.hpp"), F("kernel/voxel_assembly/burgers_assembler.hpp")])
+
+
+def check_setters(ck, tier):
+    rule = "E7.setter-history-free"
+    try:
+        facts = featlib.extract("tu/c16_setters.cpp", files=SETTER_FILES)
+    except (featlib.AnalysisBroken, OSError) as e:
+        ck.incomplete(rule, "driver tu/c16_setters.cpp: %s" % e)
+        return
+    ck.tu(facts)
+    for e in facts.errors_outside_repo():
+        ck.incomplete(rule, "driver tu/c16_setters.cpp no longer matches the API: %s:%d %s" % (e["file"], e["line"], e["msg"]))
+    for e in facts.errors_in_repo():
+        ck.ob(rule, "E0/%s/%s" % (rel(e["file"]), re.sub(r"\d+", "N", e["msg"])[:80]), False, "front-end error %s:%d %s" % (rel(e["file"]), e["line"], e["msg"]), e["file"], e["line"])
+    by_decl = {f.d.get("decl"): f for f in facts.functions if f.tk != "pattern" and f.body is not None and f.d.get("decl") is not None}
+
+    envs = {}
+
+    def member(n, f=None):
+        """name of the this-member the expression denotes (reference locals bound to a member resolved)"""
+        if f is not None:
+            if id(f) not in envs:
+                envs[id(f)] = norm.DefEnv(f)
+            n = envs[id(f)].alias(n)
+        else:
+            n = norm.strip(n)
+        return n.get("n") if n is not None and n.get("k") == "Member" and (n.get("b") or {}).get("k") == "This" and n.get("field") else None
+
+    memo = {}
+
+    def analyse(f, depth=0):
+        """-> (members assigned on every path, [(member, line) read before being assigned in this call], unknown)"""
+        mk = f.d.get("decl")
+        if mk in memo:
+            return memo[mk]
+        memo[mk] = (set(), [], [])
+        early, unknown = [], []
+
+        def reads(x, defined):
+            for y in walk(x):
+                m = member(y, f)
+                if m is not None and m not in defined:
+                    early.append((m, y.get("l")))
+
+        def expr(x, defined):
+            """evaluate the effects of expression x in evaluation order (operands before the store)"""
+            if not isinstance(x, dict):
+                return
+            k = x.get("k")
+            if k == "Assign" or (k == "OpCall" and x.get("op") in _ASSIGN_OPS and len(x.get("a") or []) == 2):
+                lhs, rhs = (x.get("lhs"), x.get("rhs")) if k == "Assign" else (x["a"][0], x["a"][1])
+                op = x.get("op", "=")
+                expr(rhs, defined)
+                m = member(lhs, f)
+                if m is not None:
+                    if op != "=":
+                        reads(lhs, defined)
+                    else:
+                        defined.add(m)
+                else:
+                    expr(lhs, defined)
+                return
+            if k == "Un" and ("++" in str(x.get("op")) or "--" in str(x.get("op"))):
+                reads(x.get("e"), defined)
+                return
+            if k in ("Call", "MCall") and x.get("cdecl") in by_decl and (k == "Call" or x.get("obj") is None or (norm.strip(x.get("obj")) or {}).get("k") == "This") and depth < 3:
+                for a in x.get("a") or []:
+                    expr(a, defined)
+                tgt = by_decl[x["cdecl"]]
+                if tgt.cls == f.cls:
+                    d2, e2, u2 = analyse(tgt, depth + 1)
+                    for m, l in e2:
+                        if m not in defined:
+                            early.append((m, l))
+                    unknown.extend(u2)
+                    defined |= d2
+                    return
+            if k == "Lambda":
+                return
+            m = member(x, f)
+            if m is not None:
+                if m not in defined:
+                    early.append((m, x.get("l")))
+                return
+            for c in featlib.children(x):
+                expr(c, defined)
+
+        def stmt(st, defined):
+            """-> defined set after the statement, or None if the path ends"""
+            if not isinstance(st, dict):
+                return defined
+            k = st.get("k")
+            if k == "Block":
+                for s2 in st.get("s") or []:
+                    defined = stmt(s2, defined)
+                    if defined is None:
+                        return None
+                return defined
+            if k == "Decl":
+                for v in st.get("vars") or []:
+                    if v.get("init") is not None and not ((v.get("ref") or f.type(v.get("t")).rstrip().endswith("&")) and member(v["init"], f)):
+                        expr(v["init"], defined)
+                return defined
+            if k == "If":
+                expr(st.get("c"), defined)
+                a = stmt(st.get("then"), set(defined))
+                b = stmt(st.get("else"), set(defined)) if st.get("else") is not None else set(defined)
+                outs = [x for x in (a, b) if x is not None]
+                if not outs:
+                    return None
+                ends.extend([x for x in (a, b) if x is None])
+                return set.intersection(*outs)
+            if k in ("For", "While", "Do", "ForRange"):
+                if st.get("init") is not None:
+                    defined = stmt(st["init"], defined) if st["init"].get("k") in ("Decl", "Block") else (expr(st["init"], defined) or defined)
+                inner = set(defined)
+                for part in ("c", "range"):
+                    expr(st.get(part), inner)
+                stmt(st.get("body"), inner)
+                expr(st.get("inc"), inner)
+                return defined      # the body may not execute
+            if k == "Return":
+                expr(st.get("e"), defined)
+                finals.append(set(defined))
+                return None
+            if k == "Switch" and isinstance(st.get("body"), dict) and st["body"].get("k") == "Block":
+                # every label is an entry of a path from the switch head (fall-through joins), break leaves the switch
+                expr(st.get("c"), defined)
+                entry = set(defined)
+                outs = []
+                cur = None
+                has_default = False
+                for s2 in st["body"].get("s") or []:
+                    labelled = False
+                    while isinstance(s2, dict) and s2.get("k") in ("Case", "Default"):
+                        labelled = True
+                        has_default = has_default or s2["k"] == "Default"
+                        s2 = s2.get("s")
+                    if labelled:
+                        cur = set(entry) if cur is None else (cur & entry)
+                    if cur is None:
+                        continue
+                    if isinstance(s2, dict) and s2.get("k") == "Break":
+                        outs.append(cur)
+                        cur = None
+                        continue
+                    cur = stmt(s2, cur)
+                if cur is not None:
+                    outs.append(cur)
+                if not has_default:
+                    outs.append(entry)
+                return set.intersection(*outs) if outs else None
+            if k in ("Switch", "Try"):
+                unknown.append("%s at line %s" % (k, st.get("l")))
+                return defined
+            if k == "Break" or k == "Continue":
+                return defined
+            expr(st, defined)
+            return defined
+        finals, ends = [], []
+        d = stmt(f.body, set())
+        if d is not None:
+            finals.append(d)
+        always = set.intersection(*finals) if finals else set()
+        memo[mk] = (always, early, unknown)
+        return memo[mk]
+
+    seen = set()
+    for f in sorted(facts.functions, key=lambda f: f.full):
+        if f.tk == "pattern" or f.body is None or not f.name.startswith("set_") or not f.cls or not re.search(r"(BurgersAssembler|BurgersAssemblyJobBase|VoxelBurgersAssembler)<", f.cls):
+            continue
+        short = strip_targs(f.cls).rsplit("::", 1)[-1]
+        argkind = "global" if f.params and "Global::Vector" in f.type(f.params[0]["t"]) else "local"
+        always, early, unknown = analyse(f)
+        stored = {member(n.get("lhs") if n.get("k") == "Assign" else (n.get("a") or [None])[0], f) for n in f.nodes()
+                  if n.get("k") == "Assign" or (n.get("k") == "OpCall" and n.get("op") in _ASSIGN_OPS and n.get("a"))}
+        stored = {m for m in stored if m} | always
+        for m in sorted(stored):
+            key = "%s::%s(%s)/%s" % (short, f.name, argkind, m)
+            if key in seen:
+                continue
+            seen.add(key)
+            bad = sorted({l for (m2, l) in early if m2 == m}, key=lambda x: x or 0)
+            problems = ["%s is read at line %s before this call has assigned it: the value stored by %s() depends on the member's previous value, i.e. on the history of calls (a setter overwrites)" % (m, l, f.name) for l in bad[:2]]
+            _finish(ck, rule, key, problems, unknown if not problems else [], "%s is assigned from the arguments of the call only" % m, f.file, f.line)
+
+
+# -------------------------------------------------------------------------------------------------
 # producer / consumer gating between the voxel host loops and their kernels
 # -------------------------------------------------------------------------------------------------
 
@@ -2912,9 +3106,13 @@ class SlotFlow:
         return ("e", 0, featlib.render(c)), pol
 
     def ev_Cond(self, n):
-        self.ev(n.get("c"))
+        Tc = self.ev(n.get("c"))
         ckey, pol = self.cond_key(n.get("c"))
-        return frozenset(self.annotate(self.ev(n.get("then")), ckey, pol) | self.annotate(self.ev(n.get("else")), ckey, not pol))
+        Tt, Te = self.ev(n.get("then")), self.ev(n.get("else"))
+        if not Tt and not Te:
+            # a selection between two constants (`reversed ? -1 : 1`) carries exactly what it was decided from
+            return frozenset(Tc)
+        return frozenset(self.annotate(Tt, ckey, pol) | self.annotate(Te, ckey, not pol))
 
     def ev_Assign(self, n):
         lhs, rhs = n.get("lhs"), n.get("rhs")
@@ -2963,7 +3161,28 @@ class SlotFlow:
 
     def ev_If(self, n):
         self.ev(n.get("init"))
-        self.ev(n.get("c"))
+        Tc = self.ev(n.get("c"))
+        if Tc and len(self.frames) == 1:
+            # a decision on slot data that guards a modification of a field of some evaluation data (`if(ori < 0)
+            # tau.normal.negate();`): the decision itself is an operand of that datum
+            for br in (n.get("then"), n.get("else")):
+                for x in walk(br) if br is not None else []:
+                    tgt = None
+                    if x.get("k") == "MCall" and not x.get("cconst"):
+                        tgt = x.get("obj")
+                    elif x.get("k") == "Assign":
+                        tgt = x.get("lhs")
+                    elif x.get("k") == "OpCall" and x.get("op") in _ASSIGN_OPS and x.get("a"):
+                        tgt = x["a"][0]
+                    fld = None
+                    t0 = tgt
+                    while isinstance(t0, dict) and t0.get("k") in ("Member", "Index", "OpCall", "MCall", "Cast", "Paren"):
+                        if t0.get("k") == "Member" and t0.get("field") and (t0.get("b") or {}).get("k") == "Ref":
+                            fld = t0.get("n")
+                        t0 = t0.get("b") or t0.get("obj") or t0.get("e") or ((t0.get("a") or [None])[0])
+                    r = self.root(tgt) if tgt is not None else None
+                    if fld is not None and r is not None and r[0] == "l":
+                        self.event("guard", x, self.read(r), Tc, "if(%s) %s" % (featlib.render(n.get("c"))[:60], featlib.render(x)[:60]), extra=fld)
         self.fork([n.get("then"), n.get("else")])
         return frozenset()
 
@@ -3300,6 +3519,12 @@ def check_trace_slots(ck, facts, tier):
         for ev in sf.events.values():
             if ev["kind"] == "eval" and strip_targs(ev["callee"]).startswith("FEAT::Trafo::") and any(a == "_cells" for (a, _, _) in ev["owner"]):
                 point_arrays |= {a for (a, _, _) in ev["input"]}
+    # arrays from which the sibling routes take the decision to modify a given field of the evaluation data
+    guard_arrays = {}
+    for label, f, sf in analysed:
+        for ev in sf.events.values():
+            if ev["kind"] == "guard":
+                guard_arrays.setdefault(ev["extra"], set()).update(a for (a, _, _) in ev["input"])
     # the arrays indexed by the facet-loop index form one record per slot: whoever appends to one appends to all, once
     record_arrays = sorted({a for _, _, sf in analysed for ev in sf.events.values() for T in (ev["owner"], ev["input"]) for (a, _, _) in T})
     seen_rec = set()
@@ -3323,6 +3548,15 @@ def check_trace_slots(ck, facts, tier):
         for key, ev in evs:
             arrays_o = sorted({a for (a, _, _) in ev["owner"]})
             arrays_i = sorted({a for (a, _, _) in ev["input"]})
+            if ev["kind"] == "guard":
+                fld = ev["extra"]
+                problems, unknown, compared = compare_slots(sf, ev["owner"], ev["input"], [(a, a) for a in arrays_i if a in arrays_o])
+                for a in sorted(guard_arrays.get(fld, set()) - set(arrays_i)):
+                    problems.append("the decision does not depend on %s at all (the sibling routes decide the same modification of .%s from %s)" % (a, fld, ",".join(sorted(guard_arrays[fld]))))
+                what = "%s: decision taken from %s" % (ev["text"], ",".join(arrays_i))
+                _finish(ck, rule, "%s/guard:%s" % (label, fld), ["%s: %s" % (what, p) for p in problems], ["%s: %s" % (what, u) for u in unknown],
+                        "%s: same arrays as in the sibling routes, same slot as the modified data" % what, ev["file"], ev["line"])
+                continue
             if ev["kind"] == "eval":
                 if not arrays_o or not arrays_i:
                     continue
